@@ -38,4 +38,8 @@ theorem ne_zero_of_mul_pos_left {a b : ℝ} (h : 0 < a * b) : a ≠ 0 := by
 theorem ne_zero_of_mul_pos_right {a b : ℝ} (h : 0 < a * b) : b ≠ 0 := by
   rintro rfl; simp at h
 
+/-- `x as i32` is the identity on `[0, 2^31)` -/
+theorem wrapI32_of_small (x : Int) (h0 : 0 ≤ x) (h : x < 2 ^ 31) : wrapI32 x = x := by
+  unfold wrapI32; omega
+
 end Statrs.Lemmas.Density
